@@ -391,8 +391,12 @@ impl<'arena, 'input: 'arena> Lexer<'arena, 'input> {
                         message: ArenaCow::Borrowed("Dis number no get digit after `.`"),
                     }],
                 );
-                self.pos += 1;
-                return self.next_token().token;
+                // Keep the digits before the dot as the number. The byte after the dot has not
+                // been looked at (it may be a multi-byte character or the end of input), so it is
+                // left for the next token instead of being skipped blindly.
+                // SAFETY: start..self.pos - 1 only spans the ASCII digits scanned above
+                let num = unsafe { str::from_utf8_unchecked(&self.src[start..self.pos - 1]) };
+                return Token::Number(num);
             }
             while self.pos < len && self.src[self.pos].is_ascii_digit() {
                 self.pos += 1;
